@@ -5,7 +5,7 @@
 //!             types, weights missing/0/1/equal/large/Int/Float, a boolean property for filters, optional
 //!             deletes/weight updates before the queries) and 12..24 queries each: find_path,
 //!             find_weighted_path, find_all_paths, find_all_weighted_paths, find_variable_paths, traverse,
-//!             neighbors, astar_path — each checked with validity predicates against independent reference
+//!             neighbors, astar_path, match_pattern with a variable-length edge — each checked with validity predicates against independent reference
 //!             algorithms over the model edge list (BFS, Dijkstra cross-checked with Bellman-Ford, bounded
 //!             DFS enumeration).
 //!  * `astar`  all-directed, densely connected graphs without deliberately parallel edges and A* queries only
@@ -31,7 +31,7 @@ fn main() {
     main_for(PropDef {
         id: "C18",
         level: "exploration",
-        rule: "paths: a case is a random multigraph plus 12..24 queries; non-trivial = some query whose optimal path has >= 2 hops while a longer simple path between the same endpoints (same direction/filter rules) also exists, or whose weighted optimum runs over an edge that has a parallel sibling of a different weight (for find_variable_paths: the result holds paths of >= 2 different lengths, one of >= 2 hops; for traverse: the depth bound cuts off reachable nodes and >= 2 levels are returned). algos: non-trivial = the graph has >= 2 connected components and at least one edge. distinct = distinct generated case (hash of its JSON).",
+        rule: "paths/astar: a case is a random multigraph plus 12..24 queries; non-trivial = some query whose optimal path has >= 2 hops while a longer simple path between the same endpoints (same direction/filter rules) also exists, or whose weighted optimum runs over an edge that has a parallel sibling of a different weight (for find_variable_paths and variable-length match_pattern: the result holds paths of >= 2 different lengths, one of >= 2 hops; for traverse: the depth bound cuts off reachable nodes and >= 2 levels are returned). algos: non-trivial = the graph has >= 2 connected components and at least one edge. distinct = distinct generated case (hash of its JSON).",
         assumptions: vec![
             "weights are non-negative and exactly representable (multiples of 0.5, or of 0.1 below 3.0), so equal-cost ties are exact; negative, NaN and infinite weights are outside the documented domain",
             "a missing weight property counts as 1.0 for find_weighted_path / find_all_weighted_paths (documented) and as the configured default_weight for astar_path / minimum_spanning_tree",
@@ -39,12 +39,14 @@ fn main() {
             "node conditions of a TraversalFilter: start and end node are exempt (documented in the code); where the documentation leaves a corner open (traverse expanding through rejected nodes; a variable-length walk passing through its own end node) both readings are accepted (subset/superset sandwich)",
             "find_all_paths / find_all_weighted_paths / find_variable_paths: when a configured cap (max_paths, max_parents_per_node) can bind, only validity of the returned paths is checked",
             "find_all_weighted_paths is not called from part paths when a zero-weight cycle lies on an optimal path (the set of optimal walks is infinite); part zero_cycle covers that input in a child process",
+            "match_pattern: only the paths bound to a variable-length edge variable are compared (simple paths from the pinned start node, hop bounds, edge type/condition, end-node pattern); the match limit is not asserted",
+            "the product enumerates nodes through a randomly seeded HashSet, so results of order-dependent algorithms (biconnected_components) can differ between two runs on the same input; evaluations and class counts are reproducible, the hit counts of the two biconnected findings can differ by a few",
             "triangles are checked with TriangleConfig::undirected() only; articulation points, bridges, blocks, k-core and triangles are defined on the underlying simple undirected graph without self-loops, bridges additionally respect edge multiplicity",
         ],
         parts: vec![
-            PropPart::new("paths", 24_000, 900_000, model::path_case_strategy, paths::check_case).shrink_iters(40_000).boxed(),
-            PropPart::new("astar", 8_000, 300_000, model::astar_case_strategy, paths::check_case).shrink_iters(40_000).boxed(),
-            PropPart::new("algos", 12_000, 400_000, model::algo_case_strategy, algos::check_case).shrink_iters(40_000).boxed(),
+            PropPart::new("paths", 24_000, 600_000, model::path_case_strategy, paths::check_case).shrink_iters(40_000).boxed(),
+            PropPart::new("astar", 8_000, 200_000, model::astar_case_strategy, paths::check_case).shrink_iters(40_000).boxed(),
+            PropPart::new("algos", 12_000, 300_000, model::algo_case_strategy, algos::check_case).shrink_iters(40_000).boxed(),
             Box::new(zero_cycle::part()),
         ],
         children: vec![("zero_cycle", Box::new(zero_cycle::child))],
